@@ -11,7 +11,7 @@ enum { SK_TERM, SK_NT, SK_ERR };
 #define NILTR (-1)
 #define G_MAXSYM 18
 #define G_MAXRULE 14
-#define G_MAXRHS 4
+#define G_MAXRHS 5
 #define G_MAXTR 4
 
 struct gsym { const char *name; int kind; int code; };
@@ -255,6 +255,40 @@ static const struct gram catalogue[] = {
       { 11, 3, { 1, 8, 7 }, "t2", 1, 0, { 0 } },
       { 12, 2, { 2, 3 }, "u1", 1, 0, { 0 } },
       { 12, 3, { 2, 8, 6 }, "u2", 1, 0, { 0 } } } },
+  /* 30: G31 the same nullable-skip item live for two origins, continuation needs the second one
+     S : A p # sp(0) | x A q # sq(1) ; A : B N b # ab(0 1) ; B : x | x x # xx(0 1) ; N : | n */
+  { "G31", 9, { T ("p", 'p'), T ("q", 'q'), T ("x", 'x'), T ("b", 'b'), T ("n", 'n'), N ("S"), N ("A"), N ("B"), N ("N") }, 7,
+    { { 5, 2, { 6, 0 }, "sp", 1, 1, { 0 } },
+      { 5, 3, { 2, 6, 1 }, "sq", 1, 1, { 1 } },
+      { 6, 3, { 7, 8, 3 }, "ab", 1, 2, { 0, 1 } },
+      { 7, 1, { 2 }, NULL, 0, 1, { 0 } },
+      { 7, 2, { 2, 2 }, "xx", 1, 2, { 0, 1 } },
+      { 8, 0, { 0 }, NULL, 0, 0, { 0 } },
+      { 8, 1, { 4 }, NULL, 0, 1, { 0 } } } },
+  /* 31: G32 a chain written leaves-first: FOLLOW has to travel against the order in which the nonterminals appear
+     S : T ; X : x ; D : X d | X ; C : D c | D ; B : C b | C ; A : B a | B ; T : A t | A */
+  { "G32", 13, { T ("x", 'x'), T ("d", 'd'), T ("c", 'c'), T ("b", 'b'), T ("a", 'a'), T ("t", 't'),
+                 N ("S"), N ("T"), N ("X"), N ("D"), N ("C"), N ("B"), N ("A") }, 12,
+    { { 6, 1, { 7 }, NULL, 0, 1, { 0 } },
+      { 8, 1, { 0 }, NULL, 0, 1, { 0 } },
+      { 9, 2, { 8, 1 }, "dd", 1, 1, { 0 } }, { 9, 1, { 8 }, NULL, 0, 1, { 0 } },
+      { 10, 2, { 9, 2 }, "cc", 1, 1, { 0 } }, { 10, 1, { 9 }, NULL, 0, 1, { 0 } },
+      { 11, 2, { 10, 3 }, "bb", 1, 1, { 0 } }, { 11, 1, { 10 }, NULL, 0, 1, { 0 } },
+      { 12, 2, { 11, 4 }, "aa", 1, 1, { 0 } }, { 12, 1, { 11 }, NULL, 0, 1, { 0 } },
+      { 7, 2, { 12, 5 }, "tt", 1, 1, { 0 } }, { 7, 1, { 12 }, NULL, 0, 1, { 0 } } } },
+  /* 32: G33 a three-operand rule competing with two binary ones (different rule multisets for one input)
+     E : E + E # add(0 2) | E * E # mult(0 2) | E * E + E # madd(0 2 4) | a */
+  { "G33", 4, { T ("a", 'a'), T ("+", '+'), T ("*", '*'), N ("E") }, 4,
+    { { 3, 3, { 3, 1, 3 }, "add", 1, 2, { 0, 2 } },
+      { 3, 3, { 3, 2, 3 }, "mult", 1, 2, { 0, 2 } },
+      { 3, 5, { 3, 2, 3, 1, 3 }, "madd", 3, 3, { 0, 2, 4 } },
+      { 3, 1, { 0 }, NULL, 0, 1, { 0 } } } },
+  /* 33: G34 like G9, but the error rule translates its parentheses:  E : E + E # p(0 2) | a | ( E ) # 1 | ( error ) # x(0 2) */
+  { "G34", 6, { T ("a", 'a'), T ("+", '+'), T ("(", '('), T (")", ')'), ERR, N ("E") }, 4,
+    { { 5, 3, { 5, 1, 5 }, "p", 1, 2, { 0, 2 } },
+      { 5, 1, { 0 }, NULL, 0, 1, { 0 } },
+      { 5, 3, { 2, 5, 3 }, NULL, 0, 1, { 1 } },
+      { 5, 3, { 2, 4, 3 }, "x", 1, 2, { 0, 2 } } } },
 };
 #define N_CATALOGUE ((int) (sizeof (catalogue) / sizeof (catalogue[0])))
 
